@@ -413,7 +413,7 @@ class Gen:
 
 def run(ctx, model=True):
     res = E.run_property(ctx, "C12", oracle, gen=Gen(), quick=160, thorough=4000, model=model)
-    RP.add_to(res, ["reused-message", "locate"])
+    RP.add_to(res, ["reused-message", "locate", "replayed-group"])
     return res
 
 
